@@ -70,8 +70,8 @@ def gen_structure(cs, pool, budget, depth, sig, root=False, in_tuple=False):
         kinds = [0, 5]
     else:
         kinds = [0, 1, 2, 3, 4, 5, 6] if not root else [1, 2, 3, 0, 6]
-    if in_tuple:   # tuples are opaque content: the statement says nothing about tensors inside them
-        kinds = [x for x in kinds if x not in (0, 6)]
+    if in_tuple:   # tensors inside tuples are generated too (kind 0); see "tuple mode" in run()
+        kinds = [x for x in kinds if x != 6]
     W = {0: 5, 1: 3, 2: 3, 3: 3, 4: 1, 5: 2, 6: 1}
     k = kinds[cs.weighted([W[x] for x in kinds], "kind")]
     if k == 0:  # tensor slot
@@ -80,6 +80,11 @@ def gen_structure(cs, pool, budget, depth, sig, root=False, in_tuple=False):
             return None
         budget[0] -= 1
         i = cs.draw(len(pool), "pool")
+        if in_tuple and not pool[i].is_leaf:
+            # a non-leaf tensor inside a tuple cannot be deep-copied by torch at all; the statement does not
+            # cover tensors inside tuples, so that combination is left out
+            sig.append("n")
+            return None
         sig.append("T")
         return ("__slot__", i)
     if k == 5:  # non-tensor leaf
@@ -151,21 +156,24 @@ def realise(spec, pool):
 
 
 # ------------------------------------------------------- the reference model
-def model_slots(obj):
+def model_slots(obj, tuples=False):
     """tensor slots in the documented traversal order: list elements, dict values,
-    __dict__ values; everything else (tuples included) is opaque content"""
+    __dict__ values.  tuples=False: a tuple is opaque content (tensors inside it are not
+    slots and stay the original tensors); tuples=True: a tuple is traversed like a list.
+    Either reading is accepted, but one Packer must follow ONE of them consistently in
+    its getters and in its constructors."""
     res = []
     if isinstance(obj, torch.Tensor):
         res.append(obj)
-    elif isinstance(obj, list):
+    elif isinstance(obj, list) or (tuples and isinstance(obj, tuple)):
         for e in obj:
-            res.extend(model_slots(e))
+            res.extend(model_slots(e, tuples))
     elif isinstance(obj, dict):
         for e in obj.values():
-            res.extend(model_slots(e))
+            res.extend(model_slots(e, tuples))
     elif hasattr(obj, "__dict__"):
         for e in obj.__dict__.values():
-            res.extend(model_slots(e))
+            res.extend(model_slots(e, tuples))
     return res
 
 
@@ -220,6 +228,9 @@ class Mismatch(Exception):
         self.detail = detail
 
 
+TUPLE_SLOTS = [False]     # set per run once the Packer has shown which reading of tuples it follows
+
+
 def compare_result(res, ref, expected, pos, foreign_ids, path="root"):
     """res: structure returned by the Packer; ref: pristine reference copy of the
     original structure (never handed to the Packer); expected: the list of tensors
@@ -255,11 +266,14 @@ def compare_result(res, ref, expected, pos, foreign_ids, path="root"):
             compare_result(res[k], ref[k], expected, pos, foreign_ids, "%s[%r]" % (path, k))
         return
     if isinstance(ref, tuple):
-        # opaque content: equal element-wise, tensors inside are NOT slots (they stay the original tensors)
         if type(res) is not tuple or len(res) != len(ref):
             raise Mismatch("shape", "%s: tuple expected, got %s" % (path, _short(res)))
         for i, (a, b) in enumerate(zip(res, ref)):
-            compare_opaque(a, b, foreign_ids, "%s(%d)" % (path, i))
+            if TUPLE_SLOTS[0]:
+                compare_result(a, b, expected, pos, foreign_ids, "%s(%d)" % (path, i))
+            else:
+                # opaque content: equal element-wise, tensors inside are NOT slots (they stay the original tensors)
+                compare_opaque(a, b, foreign_ids, "%s(%d)" % (path, i))
         return
     if hasattr(ref, "__dict__"):
         if type(res) is not type(ref) or list(res.__dict__.keys()) != list(ref.__dict__.keys()):
@@ -274,8 +288,10 @@ def compare_result(res, ref, expected, pos, foreign_ids, path="root"):
 
 def compare_opaque(res, ref, foreign_ids, path):
     if isinstance(ref, torch.Tensor):
-        if res is not ref:
-            raise Mismatch("opaque_tensor", "%s: tensor inside a tuple is not the original tensor" % path)
+        # a tensor inside an opaque tuple is content: the same tensor or a copy of it, never something else
+        if not isinstance(res, torch.Tensor) or tuple(res.shape) != tuple(ref.shape) or \
+                not torch.equal(res.detach(), ref.detach()):
+            raise Mismatch("opaque_tensor", "%s: tensor inside a tuple changed" % path)
         return
     if isinstance(ref, (list, dict)) or hasattr(ref, "__dict__"):
         if id(res) in foreign_ids:
@@ -435,11 +451,16 @@ def run(cs, cfg):
     slots = model_slots(ref)
     uniq, inverse = model_unique(slots)
     nslots, nuniq = len(slots), len(uniq)
+    slots_t = model_slots(ref, tuples=True)
+    tuple_tensors = len(slots_t) != len(slots)
+    TUPLE_SLOTS[0] = False
+    mode_known = [not tuple_tensors]
     decoded["structure"] = "".join(sig)
     decoded["pool"] = [str(d) for d in pdesc]
     decoded["slots"] = nslots
     decoded["unique"] = nuniq
     decoded["alias_partition"] = inverse
+    decoded["tensors_inside_tuples"] = tuple_tensors
     zero = nslots == 0
     has_container = not isinstance(obj, torch.Tensor)
 
@@ -478,6 +499,9 @@ def run(cs, cfg):
         else:
             op = cs.weighted([3, 3, 6, 5, 2, 1], "op")
         u = not cs.bool("nonunique", 1, 3)
+        if not mode_known[0] and op in (1, 2, 3):
+            op = 0             # the first request on a structure with tensors inside tuples is a list getter:
+                               # it shows which reading of tuples this Packer follows
         tgt = uniq if u else slots
         rec = {"step": step, "packer": pi}
         try:
@@ -486,6 +510,22 @@ def run(cs, cfg):
                 opseq.append("GL%d" % u)
                 r = pk.get_param_tensor_list(unique=u)
                 st["GL"][u] = True
+                if not mode_known[0]:
+                    mode_known[0] = True
+                    cand = model_unique(slots_t)[0] if u else slots_t
+                    if isinstance(r, list) and len(r) == len(cand) and len(cand) != len(tgt) and \
+                            all(a is b for a, b in zip(r, cand)):
+                        # tuples are traversed: from now on everything is judged under that reading
+                        TUPLE_SLOTS[0] = True
+                        slots = slots_t
+                        uniq, inverse = model_unique(slots)
+                        nslots, nuniq = len(slots), len(uniq)
+                        zero = nslots == 0
+                        tgt = uniq if u else slots
+                        cnt("tuple_mode_traversed")
+                    else:
+                        cnt("tuple_mode_opaque")
+                    rec["tuple_mode"] = "traversed" if TUPLE_SLOTS[0] else "opaque"
                 if not isinstance(r, list) or len(r) != len(tgt) or any(a is not b for a, b in zip(r, tgt)):
                     raise Mismatch("getter_list", "get_param_tensor_list(unique=%s) returned %d tensors; model %d, "
                                    "or identities/order differ" % (u, len(r), len(tgt)))
@@ -639,5 +679,8 @@ def run(cs, cfg):
         cnt("reach.two_packers_one_structure")
     if has_container and must_succeed_ctor > 0:
         cases.append("%s|%s|%s" % (decoded["structure"], inverse, ",".join(opseq)))
+    if tuple_tensors:
+        cnt("reach.tensors_inside_tuples")
+    TUPLE_SLOTS[0] = False
     return {"violations": viol, "stats": stats, "cases": cases, "decoded": decoded,
             "digest": SIM.digest(), "evals": 1, "events": len(decoded["ops"])}
